@@ -551,6 +551,11 @@ func textOf(t *Term, param string) bool {
 	if a, isText := callArgs(t, "text"); isText && len(a) == 1 {
 		return a[0].Op == "param" && a[0].Name == param
 	}
+	// fmt.Sprint of the one operand writes it exactly as %v does
+	if sa, isSprint := callArgs(t, "fmt.Sprint"); isSprint && len(sa) == 1 {
+		va := sa[0]
+		return va.Op == "varargs" && len(va.Args) == 1 && va.Args[0].Contains(func(x *Term) bool { return x.Op == "param" && x.Name == param }) && !va.Args[0].Contains(func(x *Term) bool { return x.Op == "call" })
+	}
 	args, ok := callArgs(t, "fmt.Sprintf")
 	if !ok || len(args) != 2 {
 		return false
